@@ -204,6 +204,13 @@ fn udp_server(sock: UdpSocket, sh: Arc<Shared>) {
                 sh.seen.lock().unwrap().get(k).cloned().flatten().map(|p| response(&p, false, false, 0))
             } else if let Some(k) = what.strip_prefix('J') {
                 Some(junk(k, &q))
+            } else if let Some(h) = what.strip_prefix('X') {
+                // bytes chosen by the checker; the first two are XORed with the id of the query
+                let mut p = unhex(h);
+                for i in 0..p.len().min(2).min(q.len()) {
+                    p[i] ^= q[i];
+                }
+                Some(p)
             } else {
                 None
             };
@@ -297,6 +304,16 @@ fn tcp_server(l: TcpListener, sh: Arc<Shared>) {
             }
             let mut wire = (announce as u16).to_be_bytes().to_vec();
             wire.extend_from_slice(&resp);
+            if parts[0] == "raw" {
+                // the whole stream chosen by the checker, segment by segment
+                gap = parts.get(1).and_then(|x| x.parse().ok()).unwrap_or(5);
+                wire.clear();
+                for seg in parts.get(2).map(|x| x.split('.').collect::<Vec<_>>()).unwrap_or_default() {
+                    wire.extend_from_slice(&unhex(seg));
+                    cuts.push(wire.len());
+                }
+                hold = parts.get(3) == Some(&"hold");
+            }
             if parts[0] == "trail" {
                 let n: usize = parts.get(1).and_then(|x| x.parse().ok()).unwrap_or(7);
                 wire.extend((0..n).map(|i| 0xF0 | (i as u8 & 0xF)));
